@@ -16,6 +16,7 @@ import (
 	"io"
 	"math/rand"
 	"os"
+	"regexp"
 	"sync"
 	"time"
 
@@ -62,6 +63,8 @@ func count(k string) {
 }
 
 func normalize(b []byte) string { return canon.JSON(b) }
+
+var dateRe = regexp.MustCompile(`"(releaseDate|builtDate|validUntilDate|created|timestamp)"\s*:\s*"[^"]*"`)
 
 func mkDoc(i int) *sbom.Document {
 	d := sbom.NewDocument()
@@ -165,7 +168,13 @@ func main() {
 					}
 					count("write")
 				case 1: // parse an independent document
-					doc, err := reader.New().ParseStream(bytes.NewReader(inputs[key]))
+					in := inputs[key]
+					if it%2 == 1 {
+						// a damaged copy of it: every date replaced by text that is no date, different in every call
+						// (the parsers' tolerant paths: warnings, fallbacks, whatever they remember)
+						in = dateRe.ReplaceAll(in, []byte(fmt.Sprintf(`"${1}":"not-a-date-%d-%d"`, w, it)))
+					}
+					doc, err := reader.New().ParseStream(bytes.NewReader(in))
 					if err != nil {
 						report("concurrent parse failed", err.Error())
 					} else if len(doc.NodeList.Nodes) != refs[key].nodes || len(doc.NodeList.Edges) != refs[key].edges {
